@@ -176,6 +176,13 @@ def handle (args : List String) : String :=
       let R := separableDM n (fun k => p.get 0 k) a b
       return outC ((List.range dA).flatMap fun i => (List.range dB).flatMap fun j =>
         (List.range dA).flatMap fun i' => (List.range dB).map fun j' => R i j i' j')
+  | ["wprob", meth, w, t] => Id.run do
+      let some w := parseFloats? w | return "bad-op"
+      let some θ := parseFloats? t | return "bad-op"
+      if w.size ≠ θ.size || θ.size = 0 || (meth ≠ "softmax" && meth ≠ "psphere") then return "bad-op"
+      let f : Nat → Float := fun i => θ.getD i 0
+      let p := if meth = "softmax" then softmaxVec θ.size f else probSphereVec θ.size f
+      return vecR θ.size (weightedProb p fun i => w.getD i 0)
   | ["abkh", n, isym, iskew, fac, tsym, tskew] => Id.run do
       -- ABkHermitian.forward on integer parameters: exact Gaussian integers
       let some n := n.toNat? | return "bad-op"
